@@ -2,6 +2,7 @@ package core
 
 import (
 	"go/token"
+	"go/types"
 
 	"golang.org/x/tools/go/ssa"
 )
@@ -39,7 +40,7 @@ func BackwardReach(v ssa.Value) map[ssa.Value]bool {
 		seen[x] = true
 		// a callee may store any of its inputs into memory reachable from a pointer-like argument
 		// (e.g. f(destMap, src) fills destMap from src): inputs of calls x is passed to flow into x
-		if pointerLike(x.Type()) {
+		if _, isIface := x.Type().Underlying().(*types.Interface); pointerLike(x.Type()) && !isIface {
 			if refs := x.Referrers(); refs != nil {
 				for _, r := range *refs {
 					cc := CallOf(r)
